@@ -113,7 +113,7 @@ var linkDirectives = []string{
 // Tables is the F-tables family.
 func Tables(c explore.Chooser) *prog.Program {
 	s := &S{C: c}
-	rootPath := prog.Module + "/models"
+	rootPath := prog.Base() + "/models"
 	extPath := rootPath + "/ext"
 
 	idName := s.Pick("user.id.name", "Id", "ID", "id", "absent")
